@@ -2,6 +2,7 @@ package main
 
 import (
 	"encoding/xml"
+	"errors"
 	"fmt"
 	"net/http"
 	"net/http/httptest"
@@ -65,17 +66,27 @@ func stressMain(args []string) {
 		// a handler that keeps a Copy of its context for work that outlives the request (the documented use of Copy)
 		var bg sync.WaitGroup
 		r.GET("/copy/{id}", func(c *rux.Context) {
-			cp := c.Copy()
 			want := c.Param("id")
+			c.AddError(errors.New("err-of-" + want)) // (no OnError hook: recording an error changes nothing about the response)
+			c.Set("own", want)
+			cp := c.Copy()
 			bg.Add(1)
 			go func() {
 				defer bg.Done()
 				runtime.Gosched()
 				_ = cp.Handler()
 				_, _ = cp.Get("g0")
+				bad := ""
 				if cp.Param("id") != want {
+					bad = fmt.Sprintf("id=%q", cp.Param("id"))
+				} else if e := cp.FirstError(); e == nil || e.Error() != "err-of-"+want {
+					bad = fmt.Sprintf("first error=%v", e)
+				} else if v, _ := cp.Get("own"); v != want {
+					bad = fmt.Sprintf("own=%v", v)
+				}
+				if bad != "" {
 					if atomic.AddInt64(&wrong, 1) == 1 {
-						firstWrong.Store(fmt.Sprintf("shape=%d copied context of /copy/%s reports id=%q", shape, want, cp.Param("id")))
+						firstWrong.Store(fmt.Sprintf("shape=%d copied context of /copy/%s reports %s", shape, want, bad))
 					}
 				}
 			}()
